@@ -34,8 +34,35 @@ var (
 
 var curveN, _ = new(big.Int).SetString("fffffffffffffffffffffffffffffffebaaedce6af48a03bbfd25e8cd0364141", 16)
 
+// lambda is the scalar of secp256k1's efficient endomorphism: lambda*(x,y) = (beta*x, y).
+var lambda, _ = new(big.Int).SetString("5363ad4cc05c30e0a5261c028812645a122e22ea20816678df02967c1b23bd72", 16)
+
+// RelatedBase is the first index of the "related keys": for universe key i, index RelatedBase+3i is
+// its negation n-d (same X, other Y), RelatedBase+3i+1 and +2 are lambda*d and lambda^2*d (same Y, other X).
+// They are never enabled anywhere; a verifier that compares keys by one coordinate accepts them.
+const RelatedBase = 1000
+
 // K returns key i of the universe: priv = keccak("verif-attester"||i) mod n.
 func K(i int) *Key {
+	if i >= RelatedBase {
+		base, kind := (i-RelatedBase)/3, (i-RelatedBase)%3
+		d0 := new(big.Int).Set(K(base).Priv.D)
+		mu.Lock()
+		defer mu.Unlock()
+		if k, ok := cache[i]; ok {
+			return k
+		}
+		var d *big.Int
+		switch kind {
+		case 0:
+			d = new(big.Int).Sub(curveN, d0)
+		case 1:
+			d = new(big.Int).Mod(new(big.Int).Mul(d0, lambda), curveN)
+		default:
+			d = new(big.Int).Mod(new(big.Int).Mul(d0, new(big.Int).Mul(lambda, lambda)), curveN)
+		}
+		return mk(i, d)
+	}
 	mu.Lock()
 	defer mu.Unlock()
 	if k, ok := cache[i]; ok {
@@ -44,6 +71,10 @@ func K(i int) *Key {
 	d := new(big.Int).SetBytes(Keccak([]byte(fmt.Sprintf("verif-attester%d", i))))
 	d.Mod(d, new(big.Int).Sub(curveN, big.NewInt(1)))
 	d.Add(d, big.NewInt(1))
+	return mk(i, d)
+}
+
+func mk(i int, d *big.Int) *Key {
 	priv, err := crypto.ToECDSA(leftPad(d.Bytes(), 32))
 	if err != nil {
 		panic(err)
